@@ -21,9 +21,13 @@
 (*                   segments consumed so far and the parameters bound on the abandoned     *)
 (*                   branch are returned (code before the fix); FALSE: the path of the      *)
 (*                   wildcard node that matched and the parameters bound above it           *)
+(*   WildHostCheck   TRUE: a wildcard child is remembered as fallback only when the URL     *)
+(*                   part being consumed is of its kind (a path wildcard does not swallow   *)
+(*                   host labels; repaired code); FALSE: always (code before the fix:       *)
+(*                   a.com/* answered for a.com.evil.net/x)                                 *)
 EXTENDS UrlPattern, TLC
 
-CONSTANTS ReuseOnLookup, FabricatedNorm
+CONSTANTS ReuseOnLookup, FabricatedNorm, WildHostCheck
 
 PARAM  == "{}"
 NoNode == <<"-">>
@@ -72,9 +76,10 @@ LookupNode(t, parts) ==
               ELSE Res(FALSE, cur, params, up)
           ELSE
             LET pt   == parts[i]
-                fw2  == IF hasW THEN wc ELSE fw
-                fwU2 == IF hasW THEN wcUp ELSE fwUp
-                fwP2 == IF hasW THEN params ELSE fwPar
+                remW == hasW /\ (~WildHostCheck \/ t.host[wc] = pt.h)
+                fw2  == IF remW THEN wc ELSE fw
+                fwU2 == IF remW THEN wcUp ELSE fwUp
+                fwP2 == IF remW THEN params ELSE fwPar
                 cc   == Append(cur, pt.v)
                 pc   == Append(cur, PARAM)
             IN
@@ -135,7 +140,8 @@ IOut(st, decls, m, u) ==
     IN
     IF s.id = 0 THEN [sel |-> {}, dsel |-> {}, lk |-> lk]
     ELSE LET d == CHOOSE d \in decls : d.id = s.id IN
-         [sel  |-> {[r |-> d.r, norm |-> s.norm, params |-> s.params]},
-          dsel |-> {[r |-> d.g, norm |-> s.norm, params |-> {}]},
+         \* appendEndpointRemedies / appendEndpointDiagnoses: enabled plugins only
+         [sel  |-> IF d.re THEN {[r |-> d.r, norm |-> s.norm, params |-> s.params]} ELSE {},
+          dsel |-> IF d.ge THEN {[r |-> d.g, norm |-> s.norm, params |-> {}]} ELSE {},
           lk   |-> lk]
 ================================================================================
